@@ -29,6 +29,7 @@
 #include <aws/common/json.h>
 #include <aws/common/uri.h>
 #include <aws/common/uuid.h>
+#include <aws/common/logging.h>
 #include <aws/common/xml_parser.h>
 
 #include <dirent.h>
@@ -2718,9 +2719,45 @@ static int fuzz_main(char *argv0) {
 }
 #endif
 
+/* a logger is installed in half of the processes (by slice parity): the parsers' diagnostics are rendered (vsnprintf into a
+ * heap buffer of exactly the needed size), so that what they pass to "%s" / "%.*s" is read under the sanitizer as well */
+static uint64_t s_log_lines;
+static int c04_cap_log(struct aws_logger *logger, enum aws_log_level level, aws_log_subject_t subject, const char *format, ...) {
+    (void)logger;
+    (void)level;
+    (void)subject;
+    va_list ap, ap2;
+    va_start(ap, format);
+    va_copy(ap2, ap);
+    int n = vsnprintf(NULL, 0, format, ap);
+    va_end(ap);
+    if (n >= 0) {
+        char *buf = malloc((size_t)n + 1);
+        vsnprintf(buf, (size_t)n + 1, format, ap2);
+        free(buf);
+    }
+    va_end(ap2);
+    ++s_log_lines;
+    return AWS_OP_SUCCESS;
+}
+static enum aws_log_level c04_cap_level(struct aws_logger *logger, aws_log_subject_t subject) {
+    (void)logger;
+    (void)subject;
+    return AWS_LL_TRACE;
+}
+static void c04_cap_clean(struct aws_logger *logger) {
+    (void)logger;
+}
+static struct aws_logger_vtable s_c04_cap_vtable = {.log = c04_cap_log, .get_log_level = c04_cap_level, .clean_up = c04_cap_clean, .set_log_level = NULL};
+static struct aws_logger s_c04_cap_logger = {.vtable = &s_c04_cap_vtable, .allocator = NULL, .p_impl = NULL};
+
 int main(int argc, char **argv) {
     mon_init(argc, argv, "C04");
     aws_common_library_init(aws_default_allocator()); /* registers the error codes, initialises the JSON module */
+    if (mon_run.slice % 2 == 0) {
+        aws_logger_set(&s_c04_cap_logger);
+        mon_count("processes_with_a_logger_installed", 1);
+    }
 #ifdef C04_LIBFUZZER
     bool fuzz_mode = !strncmp(mon_run.mode, "fuzz:", 5);
     if (!parse_mode(fuzz_mode ? mon_run.mode + 5 : mon_run.mode)) {
